@@ -59,7 +59,14 @@ def _run_check(prop, tier, plan, base_seed, njobs, repo, scratch, t0):
     known, fixed = runner.load_known()
     jobs = []
     by_item = {}
+    pair_items = []
     for it in plan:
+        if it.get("pair_hashseed"):
+            it = dict(it, per_run=True)
+            alt = dict(it, name=it["name"] + "@hs", hashseed=it["pair_hashseed"])
+            pair_items.append((it["name"], alt["name"], it))
+            js2 = runner.make_range_jobs(alt, prop, tier, base_seed, repo, scratch, prop)
+            jobs.extend(js2)
         js = runner.make_range_jobs(it, prop, tier, base_seed, repo, scratch, prop)
         by_item[it["name"]] = (it, js)
         jobs.extend(js)
@@ -141,6 +148,32 @@ def _run_check(prop, tier, plan, base_seed, njobs, repo, scratch, t0):
             v["base_seed"] = base_seed
             violations.append(v)
 
+    # --- cross-check: same seeds under another PYTHONHASHSEED must give bit-identical fault-free models/outputs
+    for name_a, name_b, it in pair_items:
+        per = {}
+        for j in ok_jobs:
+            if j.cfg["plan_name"] in (name_a, name_b):
+                for r in j.result.get("per_run", []):
+                    per.setdefault(r["index"], {})[j.cfg["plan_name"]] = (r, j)
+        n_cmp = 0
+        for idx, d in sorted(per.items()):
+            if name_a in d and name_b in d:
+                ra, ja = d[name_a]
+                rb, jb = d[name_b]
+                if ra.get("model") is None or rb.get("model") is None:
+                    continue
+                n_cmp += 1
+                if ra["model"] != rb["model"]:
+                    violations.append({"sig": f"{prop}|{ra.get('family')}|result-depends-on-PYTHONHASHSEED",
+                                       "msg": f"index {idx}: fault-free fitted state / outputs differ between PYTHONHASHSEED=0 and "
+                                              f"PYTHONHASHSEED={it['pair_hashseed']} (digests {ra['model']} vs {rb['model']})",
+                                       "seed": ra["seed"], "index": idx, "tape": None, "detail": {"pair_hashseed": it["pair_hashseed"]},
+                                       "cfg": dict(ja.cfg, pair_hashseed=it["pair_hashseed"]), "env": _env_keys(ja.env), "base_seed": base_seed})
+        if name_a in agg:
+            agg[name_a]["probes"]["hashseed-pairs-compared"] = agg[name_a]["probes"].get("hashseed-pairs-compared", 0) + n_cmp
+        # the @hs runs are the same seeds again: do not count them twice in the evidence
+        agg.pop(name_b, None)
+
     for name, a in agg.items():
         for h in a["harness_errors"]:
             harness_problems.append(f"[{name}] index {h.get('index')} seed {h.get('seed')}: {h['kind']}: {h['msg']}\n{h.get('tb', '')}")
@@ -165,6 +198,10 @@ def _run_check(prop, tier, plan, base_seed, njobs, repo, scratch, t0):
         jdump(rep, path)
         if v["tape"] is not None:
             _minimise(path, v, repo, scratch)
+        elif v["cfg"].get("pair_hashseed"):
+            rep = json.load(open(path))
+            rep["pair_hashseed"] = v["cfg"]["pair_hashseed"]
+            jdump(rep, path)
         # confirm in a fresh interpreter (up to 3 attempts: a violation whose manifestation depends on heap
         # contents -- uninitialised or out-of-bounds reads in compiled code -- is still a violation)
         ok = False
@@ -246,7 +283,7 @@ def _minimise(path, v, repo, scratch):
 
 
 def _reproduces(rep, rec, job):
-    if rep.get("tape") is None:
+    if rep.get("tape") is None and not rep.get("pair_hashseed"):
         # abnormal termination replay: reproduces iff the process dies again
         return job.status != "ok"
     if rec is None:
@@ -311,7 +348,7 @@ def cmd_replay(path):
     try:
         rep, rec, job = runner.replay_file(path, repo, scratch)
         prop = rep["property"]
-        if rep.get("tape") is None:
+        if rep.get("tape") is None and not rep.get("pair_hashseed"):
             if job.status != "ok":
                 print(f"[dsim] replay of {path}: interpreter died again (rc={getattr(job, 'rc', None)})")
                 print(f"VIOLATION property={prop} replay={path}")
